@@ -239,6 +239,11 @@ def table : List Entry := [
   ⟨"dosnode.recoverSign|make|make([]byte, t)", "after:sign == nil || sign.Signature == nil || sign.Content == nil; after:t < 0", .flag "rsMake"⟩,
   ⟨"dosnode.reportQueryResult|close|close(errc)", "defer; made:errc", .guarded⟩,
   ⟨"dosnode.unique|mapwrite|keys[entry]", "made:keys", .guarded⟩,
+  ⟨"dosnode.xmlDepthExceeds|deref|n.FirstChild", "", .safe "n is non-nil: the loop runs while n != nil and n is only ever root (non-nil: xmlquery.Parse succeeded), a FirstChild that was tested non-nil, a non-nil NextSibling or the Parent of a node below root"⟩,
+  ⟨"dosnode.xmlDepthExceeds|deref|n.FirstChild#2", "", .safe "same n as the test one line above"⟩,
+  ⟨"dosnode.xmlDepthExceeds|deref|n.NextSibling", "", .safe "n is a node of the tree below root (non-nil, see n.FirstChild)"⟩,
+  ⟨"dosnode.xmlDepthExceeds|deref|n.NextSibling#2", "", .safe "reached only with n != root after the climb stopped at a node whose NextSibling is non-nil"⟩,
+  ⟨"dosnode.xmlDepthExceeds|deref|n.Parent", "", .safe "n != root and n was reached from root by child / sibling links, so it has a parent inside the tree"⟩,
   ⟨"onchain.crTable[SubscribeCommitrevealLogStartCommitreveal]|close|close(errc)", "defer; made:errc", .guarded⟩,
   ⟨"onchain.crTable[SubscribeCommitrevealLogStartCommitreveal]|close|close(out)", "defer; made:out", .guarded⟩,
   ⟨"onchain.crTable[SubscribeCommitrevealLogStartCommitreveal]|close|close(transitChan)", "defer; made:transitChan", .guarded⟩,
@@ -395,7 +400,9 @@ def table : List Entry := [
 def extraConds : List (String × String × String) := [
   ("aggNil", "vss.Verifier.ProcessResponse", "v.aggregator == nil"),
   ("callIdMatch", "p2p.server.callHandler", "string(c.remoteID) != string(req.id)"),
-  ("rcDedup", "share.RecoverCommit", "dup")
+  ("rcDedup", "share.RecoverCommit", "dup"),
+  ("parseDepth", "dosnode.dataParse", "jsonDepthExceeds(rawMsg, maxDocumentDepth)"),
+  ("parseDepth", "dosnode.dataParse", "xmlDepthExceeds(rawMsgXml, maxDocumentDepth)")
 ]
 
 def Clause.flagName : Clause → Option String
@@ -495,7 +502,7 @@ def Cfg.current : Cfg :=
     nonceLen := flagOn "nonceLen", secShareNil := flagOn "secShareNil", shareVNil := flagOn "shareVNil",
     findPubVss := flagOn "findPubVss", aggNil := flagOn "aggNil", toBigLen := flagOn "toBigLen",
     qloopOk := flagOn "qloopOk", qloopCast := flagOn "qloopCast", rsNil := flagOn "rsNil", rsMake := flagOn "rsMake",
-    groupInfoIds := flagOn "groupInfoIds", byte32Len := flagOn "byte32Len", crRand := flagOn "crRand", bootReq := flagOn "bootReq", secNil := flagOn "secNil", feCast := flagOn "feCast", evFlow := flowOK,
+    groupInfoIds := flagOn "groupInfoIds", byte32Len := flagOn "byte32Len", crRand := flagOn "crRand", parseDepth := flagOn "parseDepth", bootReq := flagOn "bootReq", secNil := flagOn "secNil", feCast := flagOn "feCast", evFlow := flowOK,
     sigIdxLen := flagOn "sigIdxLen", recoverDedup := flagOn "recoverDedup", rcDedup := flagOn "rcDedup", anyNil := flagOn "anyNil",
     ridCast := flagOn "ridCast", ridLen := flagOn "ridLen", readSize := flagOn "readSize", mdNil := flagOn "mdNil", dispReplyNil := flagOn "dispReplyNil", callRemoveNil := flagOn "callRemoveNil", callIdMatch := flagOn "callIdMatch",
     listenName := flagOn "listenName", listenCast := flagOn "listenCast", lookupName := flagOn "lookupName" }
